@@ -2,4 +2,750 @@ import RzmqModel.Model.Wire
 /-! Helper lemmas for the wire model (C03, C07). -/
 namespace Rzmq
 
+-- ---------------------------------------------------------------------------------------------
+-- be64 / ofBe
+-- ---------------------------------------------------------------------------------------------
+
+theorem be64_length' (n : Nat) : (be64 n).length = 8 := rfl
+
+theorem ofBe_be64' (n : Nat) (h : n < two64) : ofBe (be64 n) = n := by
+  unfold two64 at h
+  simp only [ofBe, be64, List.foldl_cons, List.foldl_nil, UInt8.toNat_ofNat']
+  omega
+
+theorem toNat_ofNat_small (n : Nat) (h : n ≤ 255) : (UInt8.ofNat n).toNat = n := by
+  simp only [UInt8.toNat_ofNat']
+  omega
+
+-- ---------------------------------------------------------------------------------------------
+-- flag bits
+-- ---------------------------------------------------------------------------------------------
+
+/-- the flags byte the codec encoder writes (without the LONG bit) -/
+def codecFlags (f : Frame) : UInt8 :=
+  flagBits f.more f.command Gen.ZMTP_FLAG_MORE Gen.ZMTP_FLAG_COMMAND
+
+theorem isLong_flagBits (m c : Bool) :
+    isLong (flagBits m c Gen.ZMTP_FLAG_MORE Gen.ZMTP_FLAG_COMMAND) = false := by
+  simp only [isLong, flagBits, Gen.ZMTP_FLAG_LONG, Gen.ZMTP_FLAG_MORE, Gen.ZMTP_FLAG_COMMAND]
+  cases m <;> cases c <;> decide
+
+theorem isLong_flagBits_long (m c : Bool) :
+    isLong (flagBits m c Gen.ZMTP_FLAG_MORE Gen.ZMTP_FLAG_COMMAND ||| Gen.ZMTP_FLAG_LONG) = true := by
+  simp only [isLong, flagBits, Gen.ZMTP_FLAG_LONG, Gen.ZMTP_FLAG_MORE, Gen.ZMTP_FLAG_COMMAND]
+  cases m <;> cases c <;> decide
+
+theorem isMore_flagBits (m c : Bool) :
+    isMore (flagBits m c Gen.ZMTP_FLAG_MORE Gen.ZMTP_FLAG_COMMAND) = m := by
+  simp only [isMore, flagBits, Gen.ZMTP_FLAG_MORE, Gen.ZMTP_FLAG_COMMAND]
+  cases m <;> cases c <;> decide
+
+theorem isMore_flagBits_long (m c : Bool) :
+    isMore (flagBits m c Gen.ZMTP_FLAG_MORE Gen.ZMTP_FLAG_COMMAND ||| Gen.ZMTP_FLAG_LONG) = m := by
+  simp only [isMore, flagBits, Gen.ZMTP_FLAG_LONG, Gen.ZMTP_FLAG_MORE, Gen.ZMTP_FLAG_COMMAND]
+  cases m <;> cases c <;> decide
+
+theorem isCommand_flagBits (m c : Bool) :
+    isCommand (flagBits m c Gen.ZMTP_FLAG_MORE Gen.ZMTP_FLAG_COMMAND) = c := by
+  simp only [isCommand, flagBits, Gen.ZMTP_FLAG_MORE, Gen.ZMTP_FLAG_COMMAND]
+  cases m <;> cases c <;> decide
+
+theorem isCommand_flagBits_long (m c : Bool) :
+    isCommand (flagBits m c Gen.ZMTP_FLAG_MORE Gen.ZMTP_FLAG_COMMAND ||| Gen.ZMTP_FLAG_LONG) = c := by
+  simp only [isCommand, flagBits, Gen.ZMTP_FLAG_LONG, Gen.ZMTP_FLAG_MORE, Gen.ZMTP_FLAG_COMMAND]
+  cases m <;> cases c <;> decide
+
+theorem isLong_codecFlags (f : Frame) : isLong (codecFlags f) = false :=
+  isLong_flagBits _ _
+
+theorem isLong_codecFlags_long (f : Frame) :
+    isLong (codecFlags f ||| Gen.ZMTP_FLAG_LONG) = true :=
+  isLong_flagBits_long _ _
+
+theorem mkFrame_codecFlags (f : Frame) : mkFrame (codecFlags f) f.payload = f := by
+  simp only [mkFrame, codecFlags, isMore_flagBits, isCommand_flagBits]
+
+theorem mkFrame_codecFlags_long (f : Frame) :
+    mkFrame (codecFlags f ||| Gen.ZMTP_FLAG_LONG) f.payload = f := by
+  simp only [mkFrame, codecFlags, isMore_flagBits_long, isCommand_flagBits_long]
+
+-- ---------------------------------------------------------------------------------------------
+-- single-frame decoders on an encoded frame
+-- ---------------------------------------------------------------------------------------------
+
+theorem encodeCodec_short (f : Frame) (h : f.payload.length ≤ 255) :
+    encodeCodec f = codecFlags f :: UInt8.ofNat f.payload.length :: f.payload := by
+  simp only [encodeCodec, header, Gen.codecEncodeShortMax, h, if_true, codecFlags,
+    List.cons_append, List.nil_append]
+
+theorem encodeCodec_long (f : Frame) (h : 255 < f.payload.length) :
+    encodeCodec f = (codecFlags f ||| Gen.ZMTP_FLAG_LONG) :: (be64 f.payload.length ++ f.payload) := by
+  have h' : ¬ f.payload.length ≤ 255 := by omega
+  simp only [encodeCodec, header, Gen.codecEncodeShortMax, h', if_false, codecFlags,
+    List.cons_append]
+
+theorem rawSize_short (fl b : UInt8) (t : List UInt8) (h : isLong fl = false) :
+    rawSize fl (b :: t) = b.toNat := by
+  simp only [rawSize, h, List.headD_cons, Bool.false_eq_true, if_false]
+
+theorem rawSize_long (fl : UInt8) (n : Nat) (t : List UInt8) (h : isLong fl = true) (hn : n < two64) :
+    rawSize fl (be64 n ++ t) = n := by
+  have : (be64 n ++ t).take 8 = be64 n := by
+    simp [be64]
+  simp only [rawSize, h, if_true, this, ofBe_be64' n hn]
+
+theorem not_exceeds (max : Int) (n : Nat) (h : max < 0 ∨ n ≤ max.toNat) : exceeds max n = false := by
+  simp only [exceeds]
+  rcases h with h | h
+  · have : ¬ (0 ≤ max) := by omega
+    simp [this]
+  · have : ¬ (max.toNat < n) := by omega
+    simp [this]
+
+
+theorem drop8_be64 (n : Nat) (t : List UInt8) : (be64 n ++ t).drop 8 = t := rfl
+theorem take8_be64 (n : Nat) (t : List UInt8) : (be64 n ++ t).take 8 = be64 n := rfl
+
+theorem decodeBuffer_encode' (max : Int) (f : Frame) (rest : List UInt8)
+    (hok : f.payload.length < two64) (hmax : max < 0 ∨ f.payload.length ≤ max.toNat) :
+    decodeBuffer max (encodeCodec f ++ rest) = .frame f rest := by
+  by_cases h : f.payload.length ≤ 255
+  · rw [encodeCodec_short f h]
+    simp only [List.cons_append, decodeBuffer, isLong_codecFlags, Bool.false_eq_true, if_false,
+      Gen.bufferShortHdr, rawSize_short, toNat_ofNat_small _ h, not_exceeds max _ hmax,
+      List.length_cons, List.length_append, List.drop_succ_cons, List.drop_zero,
+      List.take_left', List.drop_left', mkFrame_codecFlags]
+    rw [if_neg (by omega), if_neg (by omega)]
+  · have h : 255 < f.payload.length := by omega
+    rw [encodeCodec_long f h]
+    simp only [List.cons_append, List.append_assoc, decodeBuffer, isLong_codecFlags_long, if_true,
+      Gen.bufferLongHdr, rawSize_long _ _ _ (isLong_codecFlags_long f) hok, not_exceeds max _ hmax,
+      List.length_append, be64_length']
+    rw [if_neg (by omega), if_neg (by decide), if_neg (by omega)]
+    simp only [show 9 - 1 = 8 from rfl, drop8_be64, List.take_left', List.drop_left',
+      mkFrame_codecFlags_long]
+
+theorem decodeSliceLike_encode' (max : Int) (f : Frame) (rest : List UInt8)
+    (hok : f.payload.length + 9 < two64) (hmax : max < 0 ∨ f.payload.length ≤ max.toNat) :
+    decodeSliceLike 2 9 2 max (encodeCodec f ++ rest) = .frame f rest := by
+  have hok' : f.payload.length < two64 := by omega
+  unfold two64 at hok
+  by_cases h : f.payload.length ≤ 255
+  · rw [encodeCodec_short f h]
+    simp only [List.cons_append, decodeSliceLike, isLong_codecFlags, Bool.false_eq_true, if_false,
+      rawSize_short, toNat_ofNat_small _ h, not_exceeds max _ hmax,
+      List.length_cons, List.length_append, List.drop_succ_cons, List.drop_zero,
+      List.take_left', List.drop_left', mkFrame_codecFlags]
+    repeat (first | rw [if_neg (by omega)] | rw [if_neg (by decide)])
+  · have h : 255 < f.payload.length := by omega
+    rw [encodeCodec_long f h]
+    simp only [List.cons_append, List.append_assoc, decodeSliceLike, isLong_codecFlags_long, if_true,
+      rawSize_long _ _ _ (isLong_codecFlags_long f) hok', not_exceeds max _ hmax,
+      List.length_cons, List.length_append, be64_length']
+    repeat (first | rw [if_neg (by omega)] | rw [if_neg (by decide)])
+    simp only [show 9 - 1 = 8 from rfl, drop8_be64, List.take_left', List.drop_left',
+      mkFrame_codecFlags_long]
+
+theorem encodeCodec_length (f : Frame) :
+    (encodeCodec f).length = (if f.payload.length ≤ 255 then 2 else 9) + f.payload.length := by
+  by_cases h : f.payload.length ≤ 255
+  · rw [encodeCodec_short f h, if_pos h]; simp only [List.length_cons]; omega
+  · rw [encodeCodec_long f (by omega), if_neg h]
+    simp only [List.length_cons, List.length_append, be64_length']; omega
+
+theorem peek_encode' (max : Int) (f : Frame) (rest : List UInt8)
+    (hok : f.payload.length + 9 < two64) (hmax : max < 0 ∨ f.payload.length ≤ max.toNat) :
+    peekFrameLen max (encodeCodec f ++ rest) = .total (encodeCodec f).length := by
+  have hok' : f.payload.length < two64 := by omega
+  rw [encodeCodec_length]
+  unfold two64 at hok
+  by_cases h : f.payload.length ≤ 255
+  · rw [encodeCodec_short f h, if_pos h]
+    simp only [List.cons_append, peekFrameLen, isLong_codecFlags, Bool.false_eq_true, if_false,
+      Gen.peekShortHdr, rawSize_short, toNat_ofNat_small _ h, not_exceeds max _ hmax,
+      List.length_cons, List.length_append, two64]
+    repeat (first | rw [if_neg (by omega)] | rw [if_neg (by decide)])
+  · have h' : 255 < f.payload.length := by omega
+    rw [encodeCodec_long f h', if_neg h]
+    simp only [List.cons_append, List.append_assoc, peekFrameLen, isLong_codecFlags_long, if_true,
+      Gen.peekLongHdr, rawSize_long _ _ _ (isLong_codecFlags_long f) hok', not_exceeds max _ hmax,
+      List.length_append, be64_length', two64]
+    repeat (first | rw [if_neg (by omega)] | rw [if_neg (by decide)])
+
+theorem codec_encode' (f : Frame) (rest : List UInt8)
+    (hcap : f.payload.length ≤ Gen.CODEC_MAX_FRAME_SIZE) :
+    codecDecodeOne .readHeader (encodeCodec f ++ rest) = (some f, false, .readHeader, rest) := by
+  have hok' : f.payload.length < two64 := by
+    unfold Gen.CODEC_MAX_FRAME_SIZE at hcap; unfold two64; omega
+  by_cases h : f.payload.length ≤ 255
+  · rw [encodeCodec_short f h]
+    simp only [List.cons_append, codecDecodeOne, isLong_codecFlags, Bool.false_eq_true, if_false,
+      Gen.codecDecShortHdr, rawSize_short, toNat_ofNat_small _ h,
+      List.length_cons, List.length_append, List.drop_succ_cons, List.drop_zero,
+      List.take_left', List.drop_left', mkFrame_codecFlags]
+    rw [if_neg (by omega), if_neg (by omega), if_neg (by omega)]
+  · have h : 255 < f.payload.length := by omega
+    rw [encodeCodec_long f h]
+    simp only [List.cons_append, List.append_assoc, codecDecodeOne, isLong_codecFlags_long, if_true,
+      Gen.codecDecLongHdr, rawSize_long _ _ _ (isLong_codecFlags_long f) hok',
+      List.length_append, be64_length', show 9 - 1 = 8 from rfl, drop8_be64,
+      List.take_left', List.drop_left', mkFrame_codecFlags_long]
+    rw [if_neg (by omega), if_neg (by omega), if_neg (by omega)]
+
+-- ---------------------------------------------------------------------------------------------
+-- the live decoder is monotone under appending bytes; stream decoding
+-- ---------------------------------------------------------------------------------------------
+
+theorem rawSize_append (fl : UInt8) (tl b : List UInt8) (hdr : Nat)
+    (hh : hdr = if isLong fl then 9 else 2) (h : ¬ tl.length + 1 < hdr) :
+    rawSize fl (tl ++ b) = rawSize fl tl := by
+  unfold rawSize
+  cases hl : isLong fl
+  · simp only [hl, Bool.false_eq_true, if_false] at hh ⊢
+    cases tl with
+    | nil => simp only [List.length_nil] at h; omega
+    | cons x t => rfl
+  · simp only [hl, if_true] at hh ⊢
+    rw [List.take_append_of_le_length (by omega)]
+
+theorem decodeBuffer_ne_panic (max : Int) (src : List UInt8) : decodeBuffer max src ≠ .panic := by
+  unfold decodeBuffer
+  split
+  · simp
+  · simp only
+    repeat' split
+    all_goals simp
+
+theorem decodeBuffer_append_frame {max : Int} {a : List UInt8} {f : Frame} {r : List UInt8}
+    (b : List UInt8) (h : decodeBuffer max a = .frame f r) :
+    decodeBuffer max (a ++ b) = .frame f (r ++ b) := by
+  cases a with
+  | nil => simp [decodeBuffer] at h
+  | cons fl tl =>
+    simp only [decodeBuffer, List.cons_append] at h ⊢
+    generalize hhdr : (if isLong fl then Gen.bufferLongHdr else Gen.bufferShortHdr) = hdr at h ⊢
+    have hh : hdr = if isLong fl then 9 else 2 := by
+      rw [← hhdr]; simp only [Gen.bufferLongHdr, Gen.bufferShortHdr]
+    by_cases h1 : tl.length + 1 < hdr
+    · simp [h1] at h
+    · have h1' : ¬ (tl ++ b).length + 1 < hdr := by simp only [List.length_append]; omega
+      rw [if_neg h1] at h
+      rw [if_neg h1', rawSize_append fl tl b hdr hh h1]
+      by_cases h2 : exceeds max (rawSize fl tl) = true
+      · simp [h2] at h
+      · rw [if_neg h2] at h ⊢
+        by_cases h3 : tl.length + 1 - hdr < rawSize fl tl
+        · simp [h3] at h
+        · have hpos : 1 ≤ hdr := by rw [hh]; split <;> omega
+          have hlen : hdr - 1 ≤ tl.length := by omega
+          have hlen2 : rawSize fl tl ≤ (tl.drop (hdr - 1)).length := by
+            simp only [List.length_drop]; omega
+          have h3' : ¬ (tl ++ b).length + 1 - hdr < rawSize fl tl := by
+            simp only [List.length_append]; omega
+          rw [if_neg h3] at h
+          rw [if_neg h3']
+          injection h with hf hr
+          subst hf hr
+          rw [List.drop_append_of_le_length hlen, List.take_append_of_le_length hlen2,
+            List.drop_append_of_le_length hlen2]
+
+theorem decodeBuffer_append_error {max : Int} {a : List UInt8}
+    (b : List UInt8) (h : decodeBuffer max a = .error) :
+    decodeBuffer max (a ++ b) = .error := by
+  cases a with
+  | nil => simp [decodeBuffer] at h
+  | cons fl tl =>
+    simp only [decodeBuffer, List.cons_append] at h ⊢
+    generalize hhdr : (if isLong fl then Gen.bufferLongHdr else Gen.bufferShortHdr) = hdr at h ⊢
+    have hh : hdr = if isLong fl then 9 else 2 := by
+      rw [← hhdr]; simp only [Gen.bufferLongHdr, Gen.bufferShortHdr]
+    by_cases h1 : tl.length + 1 < hdr
+    · simp [h1] at h
+    · have h1' : ¬ (tl ++ b).length + 1 < hdr := by simp only [List.length_append]; omega
+      rw [if_neg h1] at h
+      rw [if_neg h1', rawSize_append fl tl b hdr hh h1]
+      by_cases h2 : exceeds max (rawSize fl tl) = true
+      · rw [if_pos h2]
+      · rw [if_neg h2] at h
+        by_cases h3 : tl.length + 1 - hdr < rawSize fl tl
+        · simp [h3] at h
+        · simp [h3] at h
+
+theorem decodeAll_eq (max : Int) (src : List UInt8) :
+    decodeAll max src =
+      match decodeBuffer max src with
+      | .needMore => ([], .more, src)
+      | .error => ([], .err, src)
+      | .panic => ([], .panic, src)
+      | .frame f rest =>
+        ((f :: (decodeAll max rest).1), (decodeAll max rest).2.1, (decodeAll max rest).2.2) := by
+  rw [decodeAll]
+  split <;> simp_all
+
+theorem decodeAll_needMore {max : Int} {src : List UInt8} (h : decodeBuffer max src = .needMore) :
+    decodeAll max src = ([], .more, src) := by
+  rw [decodeAll_eq, h]
+
+theorem decodeAll_error {max : Int} {src : List UInt8} (h : decodeBuffer max src = .error) :
+    decodeAll max src = ([], .err, src) := by
+  rw [decodeAll_eq, h]
+
+theorem decodeAll_frame {max : Int} {src : List UInt8} {f : Frame} {rest : List UInt8}
+    (h : decodeBuffer max src = .frame f rest) :
+    decodeAll max src =
+      ((f :: (decodeAll max rest).1), (decodeAll max rest).2.1, (decodeAll max rest).2.2) := by
+  rw [decodeAll_eq, h]
+
+theorem decodeAll_append (max : Int) (a b : List UInt8) :
+    ((decodeAll max a).2.1 = .more →
+      decodeAll max (a ++ b) =
+        ((decodeAll max a).1 ++ (decodeAll max ((decodeAll max a).2.2 ++ b)).1,
+         (decodeAll max ((decodeAll max a).2.2 ++ b)).2.1,
+         (decodeAll max ((decodeAll max a).2.2 ++ b)).2.2))
+    ∧ ((decodeAll max a).2.1 = .err →
+      decodeAll max (a ++ b) = ((decodeAll max a).1, .err, (decodeAll max a).2.2 ++ b))
+    ∧ (decodeAll max a).2.1 ≠ .panic
+    ∧ ((decodeAll max a).2.1 = .more → decodeBuffer max (decodeAll max a).2.2 = .needMore) := by
+  fun_induction decodeAll max a with
+  | case1 src h =>
+    refine ⟨fun _ => ?_, fun h' => ?_, ?_, fun _ => h⟩
+    · simp only [List.nil_append]
+    · simp at h'
+    · simp
+  | case2 src h =>
+    refine ⟨fun h' => ?_, fun _ => ?_, ?_, fun h' => ?_⟩
+    · simp at h'
+    · simp only [decodeAll_error (decodeBuffer_append_error b h)]
+    · simp
+    · simp at h'
+  | case3 src h => exact absurd h (decodeBuffer_ne_panic max src)
+  | case4 src f rest h r ih =>
+    obtain ⟨ih1, ih2, ih3, ih4⟩ := ih
+    simp only [decodeAll_frame (decodeBuffer_append_frame b h)]
+    refine ⟨fun h' => ?_, fun h' => ?_, ih3, ih4⟩
+    · rw [ih1 h']; rfl
+    · rw [ih2 h']
+
+
+theorem feedChunks_closed (max : Int) (s : RxState) (h : s.closed = true) (chunks : List (List UInt8)) :
+    feedChunks max s chunks = (s, []) := by
+  induction chunks with
+  | nil => rfl
+  | cons c cs ih =>
+    simp only [feedChunks, feed, h, if_true, ih, List.append_nil]
+
+theorem feedChunks_spec (max : Int) (chunks : List (List UInt8)) :
+    ∀ (s : RxState), s.closed = false → decodeBuffer max s.acc = .needMore →
+    (feedChunks max s chunks).2 = (feed max s chunks.flatten).2
+    ∧ (feedChunks max s chunks).1.closed = (feed max s chunks.flatten).1.closed
+    ∧ ((feedChunks max s chunks).1.closed = false →
+        (feedChunks max s chunks).1.acc = (feed max s chunks.flatten).1.acc) := by
+  induction chunks with
+  | nil =>
+    intro s hs hacc
+    simp [feedChunks, feed, hs, decodeAll_needMore hacc]
+  | cons c cs ih =>
+    intro s hs hacc
+    obtain ⟨hm, he, hp, hl⟩ := decodeAll_append max (s.acc ++ c) cs.flatten
+    simp only [feedChunks, feed, hs, Bool.false_eq_true, if_false, List.flatten_cons,
+      ← List.append_assoc]
+    cases hst : (decodeAll max (s.acc ++ c)).2.1 with
+    | more =>
+      have := ih { acc := (decodeAll max (s.acc ++ c)).2.2, closed := false } rfl (hl hst)
+      simp only [feed, Bool.false_eq_true, if_false] at this
+      rw [hm hst]
+      simpa using this
+    | err =>
+      rw [he hst, feedChunks_closed max _ (by simp)]
+      simp
+    | panic => exact absurd hst hp
+
+-- ---------------------------------------------------------------------------------------------
+-- tokio codec decoder
+-- ---------------------------------------------------------------------------------------------
+
+/-- phase invariant: a pending body is never empty -/
+def CodecPhase.good : CodecPhase → Prop
+  | .readHeader => True
+  | .readBody _ size => 0 < size
+
+/-- a successful `decode` returns to `readHeader` and consumes at least one byte -/
+theorem codecDecodeOne_some {ph : CodecPhase} {src : List UInt8} {f : Frame} {e : Bool}
+    {ph' : CodecPhase} {src' : List UInt8} (hg : ph.good)
+    (h : codecDecodeOne ph src = (some f, e, ph', src')) :
+    ph' = .readHeader ∧ src'.length < src.length := by
+  unfold codecDecodeOne at h
+  split at h
+  · rename_i fl size
+    split at h
+    · simp at h
+    · rename_i hlt
+      simp only [Prod.mk.injEq] at h
+      obtain ⟨-, -, h3, h4⟩ := h
+      subst h3 h4
+      simp only [CodecPhase.good] at hg
+      simp only [List.length_drop]
+      exact ⟨trivial, by omega⟩
+  · split at h
+    · simp at h
+    · rename_i fl tl
+      simp only at h
+      repeat' split at h
+      all_goals first
+        | (simp at h; done)
+        | skip
+      all_goals
+        simp only [Prod.mk.injEq] at h
+        obtain ⟨-, -, h3, h4⟩ := h
+        subst h3 h4
+        simp only [List.length_drop, List.length_cons]
+        exact ⟨trivial, by omega⟩
+
+theorem codecDecodeOne_none_good {ph : CodecPhase} {src : List UInt8} {e : Bool}
+    {ph' : CodecPhase} {src' : List UInt8} (hg : ph.good)
+    (h : codecDecodeOne ph src = (none, e, ph', src')) : ph'.good := by
+  unfold codecDecodeOne at h
+  split at h
+  · split at h
+    · simp only [Prod.mk.injEq] at h
+      obtain ⟨-, -, h3, -⟩ := h
+      subst h3; exact hg
+    · simp at h
+  · split at h
+    · simp only [Prod.mk.injEq] at h
+      obtain ⟨-, -, h3, -⟩ := h
+      subst h3; exact hg
+    · simp only at h
+      repeat' split at h
+      all_goals first
+        | (simp at h; done)
+        | (simp only [Prod.mk.injEq] at h
+           obtain ⟨-, -, h3, -⟩ := h
+           subst h3
+           first
+             | exact hg
+             | (simp only [CodecPhase.good]; omega))
+
+/-- header length the codec decoder expects for a given flags byte -/
+def codecHdr (fl : UInt8) : Nat := if isLong fl then Gen.codecDecLongHdr else Gen.codecDecShortHdr
+
+theorem codecHdr_pos (fl : UInt8) : 1 ≤ codecHdr fl := by
+  simp only [codecHdr, Gen.codecDecLongHdr, Gen.codecDecShortHdr]; split <;> omega
+
+theorem rawSize_append' (fl : UInt8) (tl b : List UInt8) (h : ¬ tl.length + 1 < codecHdr fl) :
+    rawSize fl (tl ++ b) = rawSize fl tl :=
+  rawSize_append fl tl b _
+    (by simp only [codecHdr, Gen.codecDecLongHdr, Gen.codecDecShortHdr]) h
+
+/-- how `decode` in `readHeader` behaves once the header is complete, in terms of the body bytes -/
+theorem codecDecodeOne_readHeader_cons (fl : UInt8) (tl : List UInt8)
+    (h : ¬ tl.length + 1 < codecHdr fl) :
+    codecDecodeOne .readHeader (fl :: tl) =
+      if Gen.CODEC_MAX_FRAME_SIZE < rawSize fl tl then
+        (none, true, .readHeader, tl.drop (codecHdr fl - 1))
+      else if (tl.drop (codecHdr fl - 1)).length < rawSize fl tl then
+        (none, false, .readBody fl (rawSize fl tl), tl.drop (codecHdr fl - 1))
+      else (some (mkFrame fl ((tl.drop (codecHdr fl - 1)).take (rawSize fl tl))), false, .readHeader,
+        (tl.drop (codecHdr fl - 1)).drop (rawSize fl tl)) := by
+  unfold codecHdr at h ⊢
+  simp only [codecDecodeOne, if_neg h]
+
+theorem codecDecodeOne_readHeader_short (fl : UInt8) (tl : List UInt8)
+    (h : tl.length + 1 < codecHdr fl) :
+    codecDecodeOne .readHeader (fl :: tl) = (none, false, .readHeader, fl :: tl) := by
+  unfold codecHdr at h
+  simp only [codecDecodeOne, if_pos h]
+
+theorem codecDecodeOne_append_some {ph : CodecPhase} {a : List UInt8} {f : Frame} {e : Bool}
+    {ph' : CodecPhase} {a' : List UInt8} (b : List UInt8)
+    (h : codecDecodeOne ph a = (some f, e, ph', a')) :
+    codecDecodeOne ph (a ++ b) = (some f, e, ph', a' ++ b) := by
+  cases ph with
+  | readBody fl size =>
+    simp only [codecDecodeOne] at h ⊢
+    by_cases h1 : a.length < size
+    · simp [h1] at h
+    · have h1' : ¬ (a ++ b).length < size := by simp only [List.length_append]; omega
+      rw [if_neg h1] at h
+      rw [if_neg h1', List.take_append_of_le_length (by omega),
+        List.drop_append_of_le_length (by omega)]
+      simp only [Prod.mk.injEq] at h ⊢
+      obtain ⟨h1, h2, h3, h4⟩ := h
+      exact ⟨h1, h2, h3, by rw [h4]⟩
+  | readHeader =>
+    cases a with
+    | nil => simp [codecDecodeOne] at h
+    | cons fl tl =>
+      by_cases hh : tl.length + 1 < codecHdr fl
+      · rw [codecDecodeOne_readHeader_short fl tl hh] at h; simp at h
+      · have hh' : ¬ (tl ++ b).length + 1 <
+            codecHdr fl := by
+          simp only [List.length_append]; omega
+        have hpos := codecHdr_pos fl
+        rw [codecDecodeOne_readHeader_cons fl tl hh] at h
+        rw [List.cons_append, codecDecodeOne_readHeader_cons fl _ hh', rawSize_append' fl tl b hh,
+          List.drop_append_of_le_length (by omega)]
+        by_cases h2 : Gen.CODEC_MAX_FRAME_SIZE < rawSize fl tl
+        · simp [h2] at h
+        · rw [if_neg h2] at h ⊢
+          generalize List.drop (codecHdr fl - 1) tl = body at h ⊢
+          by_cases h3 : body.length < rawSize fl tl
+          · simp [h3] at h
+          · have h3' : ¬ (body ++ b).length < rawSize fl tl := by
+              simp only [List.length_append]; omega
+            rw [if_neg h3] at h
+            rw [if_neg h3', List.take_append_of_le_length (by omega),
+              List.drop_append_of_le_length (by omega)]
+            simp only [Prod.mk.injEq] at h ⊢
+            obtain ⟨h1, h2, h3, h4⟩ := h
+            exact ⟨h1, h2, h3, by rw [h4]⟩
+
+theorem codecDecodeOne_append_err {ph : CodecPhase} {a : List UInt8}
+    {ph' : CodecPhase} {a' : List UInt8} (b : List UInt8)
+    (h : codecDecodeOne ph a = (none, true, ph', a')) :
+    codecDecodeOne ph (a ++ b) = (none, true, ph', a' ++ b) := by
+  cases ph with
+  | readBody fl size =>
+    simp only [codecDecodeOne] at h
+    split at h <;> simp at h
+  | readHeader =>
+    cases a with
+    | nil => simp [codecDecodeOne] at h
+    | cons fl tl =>
+      by_cases hh : tl.length + 1 < codecHdr fl
+      · rw [codecDecodeOne_readHeader_short fl tl hh] at h; simp at h
+      · have hh' : ¬ (tl ++ b).length + 1 <
+            codecHdr fl := by
+          simp only [List.length_append]; omega
+        have hpos := codecHdr_pos fl
+        rw [codecDecodeOne_readHeader_cons fl tl hh] at h
+        rw [List.cons_append, codecDecodeOne_readHeader_cons fl _ hh', rawSize_append' fl tl b hh,
+          List.drop_append_of_le_length (by omega)]
+        by_cases h2 : Gen.CODEC_MAX_FRAME_SIZE < rawSize fl tl
+        · rw [if_pos h2] at h ⊢
+          simp only [Prod.mk.injEq, true_and] at h ⊢
+          exact ⟨h.1, by rw [h.2]⟩
+        · rw [if_neg h2] at h
+          split at h <;> simp at h
+
+theorem codecDecodeOne_append_stuck {ph : CodecPhase} {a : List UInt8}
+    {ph' : CodecPhase} {a' : List UInt8} (b : List UInt8)
+    (h : codecDecodeOne ph a = (none, false, ph', a')) :
+    codecDecodeOne ph (a ++ b) = codecDecodeOne ph' (a' ++ b) := by
+  cases ph with
+  | readBody fl size =>
+    simp only [codecDecodeOne] at h
+    split at h
+    · simp only [Prod.mk.injEq, true_and] at h
+      rw [← h.1, ← h.2]
+    · simp at h
+  | readHeader =>
+    cases a with
+    | nil =>
+      simp only [codecDecodeOne, Prod.mk.injEq, true_and] at h
+      rw [← h.1, ← h.2]
+    | cons fl tl =>
+      by_cases hh : tl.length + 1 < codecHdr fl
+      · rw [codecDecodeOne_readHeader_short fl tl hh] at h
+        simp only [Prod.mk.injEq, true_and] at h
+        rw [← h.1, ← h.2]
+      · have hh' : ¬ (tl ++ b).length + 1 <
+            codecHdr fl := by
+          simp only [List.length_append]; omega
+        have hpos := codecHdr_pos fl
+        rw [codecDecodeOne_readHeader_cons fl tl hh] at h
+        rw [List.cons_append, codecDecodeOne_readHeader_cons fl _ hh', rawSize_append' fl tl b hh,
+          List.drop_append_of_le_length (by omega)]
+        by_cases h2 : Gen.CODEC_MAX_FRAME_SIZE < rawSize fl tl
+        · simp [h2] at h
+        · rw [if_neg h2] at h ⊢
+          generalize List.drop (codecHdr fl - 1) tl = body at h ⊢
+          by_cases h3 : body.length < rawSize fl tl
+          · rw [if_pos h3] at h
+            simp only [Prod.mk.injEq, true_and] at h
+            rw [← h.1, ← h.2]
+            simp only [codecDecodeOne]
+          · simp [h3] at h
+
+theorem codecDrain_succ_some {ph : CodecPhase} {src : List UInt8} {f : Frame} {e : Bool}
+    {ph' : CodecPhase} {src' : List UInt8} (n : Nat)
+    (h : codecDecodeOne ph src = (some f, e, ph', src')) :
+    codecDrain (n + 1) ph src =
+      (f :: (codecDrain n ph' src').1, (codecDrain n ph' src').2.1, (codecDrain n ph' src').2.2.1,
+        (codecDrain n ph' src').2.2.2) := by
+  rw [codecDrain, h]
+
+theorem codecDrain_succ_none {ph : CodecPhase} {src : List UInt8} {e : Bool}
+    {ph' : CodecPhase} {src' : List UInt8} (n : Nat)
+    (h : codecDecodeOne ph src = (none, e, ph', src')) :
+    codecDrain (n + 1) ph src = ([], e, ph', src') := by
+  rw [codecDrain, h]
+
+theorem codecDrain_fuel (n : Nat) : ∀ (m : Nat) (ph : CodecPhase) (src : List UInt8), ph.good →
+    src.length + 1 ≤ n → src.length + 1 ≤ m → codecDrain n ph src = codecDrain m ph src := by
+  induction n with
+  | zero => intro m ph src _ h; omega
+  | succ n ih =>
+    intro m ph src hg hn hm
+    cases m with
+    | zero => omega
+    | succ m =>
+      simp only [codecDrain]
+      split
+      · rename_i f e ph' src' hd
+        obtain ⟨hp, hl⟩ := codecDecodeOne_some hg hd
+        subst hp
+        rw [ih m .readHeader src' trivial (by omega) (by omega)]
+      · rfl
+
+/-- drain with the amount of fuel `codecFeed` supplies -/
+def drainE (ph : CodecPhase) (src : List UInt8) : List Frame × Bool × CodecPhase × List UInt8 :=
+  codecDrain (src.length + 1) ph src
+
+theorem drainE_some {ph : CodecPhase} {src : List UInt8} {f : Frame} {e : Bool}
+    {ph' : CodecPhase} {src' : List UInt8} (hg : ph.good)
+    (h : codecDecodeOne ph src = (some f, e, ph', src')) :
+    drainE ph src =
+      (f :: (drainE ph' src').1, (drainE ph' src').2.1, (drainE ph' src').2.2.1,
+        (drainE ph' src').2.2.2) := by
+  obtain ⟨hp, hl⟩ := codecDecodeOne_some hg h
+  subst hp
+  simp only [drainE, codecDrain_succ_some _ h]
+  rw [codecDrain_fuel src.length (src'.length + 1) .readHeader src' trivial (by omega) (by omega)]
+
+theorem drainE_none {ph : CodecPhase} {src : List UInt8} {e : Bool}
+    {ph' : CodecPhase} {src' : List UInt8}
+    (h : codecDecodeOne ph src = (none, e, ph', src')) :
+    drainE ph src = ([], e, ph', src') := by
+  simp only [drainE, codecDrain_succ_none _ h]
+
+theorem drainE_congr {ph ph' : CodecPhase} {src src' : List UInt8} (hg : ph.good) (hg' : ph'.good)
+    (h : codecDecodeOne ph src = codecDecodeOne ph' src') : drainE ph src = drainE ph' src' := by
+  rcases hd : codecDecodeOne ph' src' with ⟨_ | f, e, ph2, src2⟩
+  · rw [drainE_none hd, drainE_none (h.trans hd)]
+  · rw [drainE_some hg' hd, drainE_some hg (h.trans hd)]
+
+theorem drainE_append (n : Nat) : ∀ (ph : CodecPhase) (a b : List UInt8), ph.good → a.length < n →
+    ((drainE ph a).2.1 = false →
+      (drainE ph a).2.2.1.good ∧
+      drainE ph (a ++ b) =
+        ((drainE ph a).1 ++ (drainE (drainE ph a).2.2.1 ((drainE ph a).2.2.2 ++ b)).1,
+         (drainE (drainE ph a).2.2.1 ((drainE ph a).2.2.2 ++ b)).2))
+    ∧ ((drainE ph a).2.1 = true →
+      (drainE ph (a ++ b)).1 = (drainE ph a).1 ∧ (drainE ph (a ++ b)).2.1 = true) := by
+  induction n with
+  | zero => intro ph a b hg hn; omega
+  | succ n ih =>
+    intro ph a b hg hn
+    rcases hd : codecDecodeOne ph a with ⟨_ | f, e, ph1, a1⟩
+    · cases e with
+      | false =>
+        rw [drainE_none hd]
+        refine ⟨fun _ => ⟨codecDecodeOne_none_good hg hd, ?_⟩, fun h => by simp at h⟩
+        rw [drainE_congr hg (codecDecodeOne_none_good hg hd) (codecDecodeOne_append_stuck b hd)]
+        simp only [List.nil_append]
+      | true =>
+        rw [drainE_none hd, drainE_none (codecDecodeOne_append_err b hd)]
+        exact ⟨fun h => by simp at h, fun _ => ⟨rfl, rfl⟩⟩
+    · obtain ⟨hp, hl⟩ := codecDecodeOne_some hg hd
+      subst hp
+      obtain ⟨ih1, ih2⟩ := ih .readHeader a1 b trivial (by omega)
+      rw [drainE_some hg hd, drainE_some hg (codecDecodeOne_append_some b hd)]
+      refine ⟨fun h => ?_, fun h => ?_⟩
+      · obtain ⟨g, heq⟩ := ih1 h
+        refine ⟨g, ?_⟩
+        simp only
+        rw [heq]
+        simp only [List.cons_append]
+      · obtain ⟨h1, h2⟩ := ih2 h
+        simp only
+        exact ⟨by rw [h1], h2⟩
+
+theorem codecFeed_eq (s : CodecState) (c : List UInt8) (h : s.failed = false) :
+    codecFeed s c =
+      ({ phase := (drainE s.phase (s.pfx ++ s.buf ++ c)).2.2.1, pfx := [],
+         buf := (drainE s.phase (s.pfx ++ s.buf ++ c)).2.2.2,
+         failed := (drainE s.phase (s.pfx ++ s.buf ++ c)).2.1 },
+       (drainE s.phase (s.pfx ++ s.buf ++ c)).1) := by
+  simp only [codecFeed, h, Bool.false_eq_true, if_false, drainE]
+
+theorem codecFeedChunks_failed (s : CodecState) (h : s.failed = true) (chunks : List (List UInt8)) :
+    codecFeedChunks s chunks = (s, []) := by
+  induction chunks with
+  | nil => rfl
+  | cons c cs ih => simp only [codecFeedChunks, codecFeed, h, if_true, ih, List.append_nil]
+
+theorem codecFeedChunks_spec (chunks : List (List UInt8)) :
+    ∀ (s : CodecState), chunks ≠ [] → s.failed = false → s.phase.good →
+    (codecFeedChunks s chunks).2 = (drainE s.phase (s.pfx ++ s.buf ++ chunks.flatten)).1 := by
+  induction chunks with
+  | nil => intro s h; exact absurd rfl h
+  | cons c cs ih =>
+    intro s _ hf hg
+    obtain ⟨hA, hB⟩ := drainE_append ((s.pfx ++ s.buf ++ c).length + 1) s.phase
+      (s.pfx ++ s.buf ++ c) cs.flatten hg (Nat.lt_succ_self _)
+    simp only [codecFeedChunks, codecFeed_eq s c hf, List.flatten_cons]
+    rw [← List.append_assoc (s.pfx ++ s.buf) c cs.flatten]
+    cases hfail : (drainE s.phase (s.pfx ++ s.buf ++ c)).2.1 with
+    | true =>
+      rw [codecFeedChunks_failed _ (by simp), (hB hfail).1]
+      simp
+    | false =>
+      obtain ⟨hgood, heq⟩ := hA hfail
+      cases cs with
+      | nil => simp [codecFeedChunks]
+      | cons c2 cs2 =>
+        rw [heq, ih _ (by simp) rfl hgood]
+        simp
+
+-- ---------------------------------------------------------------------------------------------
+-- the `if is_more { a } else { b }` style encoders
+-- ---------------------------------------------------------------------------------------------
+
+theorem moreStyle_long_bits (m c : Bool) :
+    ((if m then (3 : UInt8) else 2) ||| (if c then 4 else 0)) =
+      ((if m then (1 : UInt8) else 0) ||| (if c then 4 else 0)) ||| 2 := by
+  cases m <;> cases c <;> decide
+
+theorem hdrMoreStyle_eq (f : Frame) :
+    hdrMoreStyle 255 1 0 3 2 4 f =
+      header Gen.codecEncodeShortMax
+        (flagBits f.more f.command Gen.ZMTP_FLAG_MORE Gen.ZMTP_FLAG_COMMAND) Gen.ZMTP_FLAG_LONG
+        f.payload.length := by
+  simp only [hdrMoreStyle, header, flagBits, Gen.codecEncodeShortMax, Gen.ZMTP_FLAG_MORE,
+    Gen.ZMTP_FLAG_COMMAND, Gen.ZMTP_FLAG_LONG, moreStyle_long_bits]
+  rfl
+
+theorem split_eq_codec' (f : Frame) :
+    (writeMsgSplit f).1 ++ ((writeMsgSplit f).2.getD []) = encodeCodec f := by
+  simp only [writeMsgSplit, Gen.splitShortMax, Gen.splitShortMoreByte, Gen.splitShortLastByte,
+    Gen.splitLongMoreByte, Gen.splitLongLastByte, Gen.splitCommandBit, hdrMoreStyle_eq,
+    Option.getD_some, encodeCodec]
+
+theorem vectHeader_eq (f : Frame) : vectHeader f ++ f.payload = encodeCodec f := by
+  simp only [vectHeader, Gen.vectShortMax, Gen.vectShortMoreByte, Gen.vectShortLastByte,
+    Gen.vectLongMoreByte, Gen.vectLongLastByte, Gen.vectCommandBit, hdrMoreStyle_eq, encodeCodec]
+
+theorem contigFrame_eq (f : Frame) : contigFrame f = encodeCodec f := by
+  simp only [contigFrame, encodeCodec, Gen.contigShortMax, Gen.codecEncodeShortMax, Gen.contigMore,
+    Gen.contigCommand, Gen.contigLong, Gen.ZMTP_FLAG_MORE, Gen.ZMTP_FLAG_COMMAND, Gen.ZMTP_FLAG_LONG]
+
+theorem vectored_flatten_aux (fs : List Frame) :
+    ((fs.map fun f =>
+        if f.payload.isEmpty then [vectHeader f] else [vectHeader f, f.payload]).flatten).flatten =
+      (fs.map contigFrame).flatten := by
+  induction fs with
+  | nil => rfl
+  | cons f fs ih =>
+    simp only [List.map_cons, List.flatten_cons, List.flatten_append, ih, contigFrame_eq f,
+      ← vectHeader_eq f]
+    congr 1
+    cases hp : f.payload with
+    | nil => simp
+    | cons x xs => simp
+
+theorem frameVectored_flatten (batch : List Message) :
+    (frameVectored batch).flatten = frameContiguous batch := by
+  simp only [frameVectored, frameContiguous, vectored_flatten_aux]
+
 end Rzmq
